@@ -521,7 +521,7 @@ class HelicityAmplitudeBuilder:
         else:
             coefficient = self.__generate_amplitude_coefficient(transition)
             expression = coefficient * sequential_amplitudes
-        prefactor = self.__generate_amplitude_prefactor(transition)
+        prefactor = self._generate_amplitude_prefactor(transition)
         if prefactor is not None:
             expression *= prefactor
         subscript = self.naming.generate_amplitude_name(transition)
@@ -588,7 +588,7 @@ class HelicityAmplitudeBuilder:
         self.__ingredients.parameter_defaults[symbol] = value
         return symbol
 
-    def __generate_amplitude_prefactor(
+    def _generate_amplitude_prefactor(
         self, transition: StateTransition
     ) -> sp.Rational | None:
         # only the nodes whose coefficient is shared with their parity partner
@@ -675,6 +675,14 @@ class CanonicalAmplitudeBuilder(HelicityAmplitudeBuilder):
         amplitude = super()._formulate_partial_decay(transition, node_id)
         cg_coefficients = formulate_isobar_cg_coefficients(transition, node_id)
         return cg_coefficients * amplitude
+
+    @override
+    def _generate_amplitude_prefactor(
+        self, transition: StateTransition
+    ) -> sp.Rational | None:
+        # the Clebsch-Gordan coefficients already carry the parity sign between
+        # chains that share a coefficient with their parity partner
+        return None
 
 
 def _to_optional_set(values: Iterable[int] | None) -> set[int] | None:
